@@ -57,7 +57,7 @@ CfgOf(c) == [name |-> c.name, nlevels |-> c.nlevels,
                              variant |-> c.levels[i].variant, cls |-> c.levels[i].cls]],
              limit |-> c.limit, hib |-> c.hib, gsc |-> c.gsc, gscn |-> c.gscn, gscw |-> c.gscw,
              max |-> c.max, sprout |-> c.sprout, generator |-> c.generator, haslocal |-> c.haslocal, cutoff |-> c.cutoff,
-             idlecheck |-> c.idlecheck, manual |-> c.manual, cache |-> c.cache, skipsame |-> c.skipsame, localmethod |-> IF c.sprout = "nbc_local" THEN 1 ELSE 0]
+             idlecheck |-> c.idlecheck, manual |-> c.manual, phases |-> c.phases, cache |-> c.cache, skipsame |-> c.skipsame, localmethod |-> IF c.sprout = "nbc_local" THEN 1 ELSE 0]
 
 -----------------------------------------------------------------------------
 (* Pre: model steps that precede the observation point.  Returns [st, errs] *)
@@ -114,7 +114,9 @@ ImplicitLoopHead(s, e) ==
     IF (s.pc \in {"loop", "sprout"} \/ (Manual(s) /\ s.pc = "done")) /\ e.e \in {"gsc", "lsc"} /\ (e.e = "lsc" \/ e.by \notin {"run", "other"})
     THEN LET s0 == IF s.pc \in {"sprout", "done"} THEN [s EXCEPT !.pc = "loop"] ELSE s
              s1 == InitAll(s0, e.b)
-         IN R(DoLoopCheck(s1, FALSE),
+             \* tree.run_metaepoch() called by itself (cfg.phases): a metaepoch begins, the tree's counter does not move
+             s2 == IF s.cfg.phases = 1 THEN [DoLoopCheck(s1, FALSE) EXCEPT !.mc = s1.mc] ELSE DoLoopCheck(s1, FALSE)
+         IN R(s2,
               IF ~Manual(s) /\ GscModelled(s1) /\ GscVal(s1) THEN {"C05_ReturnsAtFirstBoundary"} ELSE {})
     ELSE R(s, {})
 
@@ -159,9 +161,17 @@ PreAt(s, e) ==
                s1 == IF s0.pc \in {"init", "loop"} THEN InitAll(s0, e.b) ELSE s0
            IN IF EnLoopCheck(s1) THEN R(s1, {}) ELSE R(Force(s1, e), {"Desync"})
       [] e.e = "sprout" ->
-           IF EnSprout(s) THEN R(s, {}) ELSE R(Force(s, e), {"Desync"})
+           IF EnSprout(s) THEN R(s, {})
+           ELSE IF s.cfg.phases = 1 /\ s.pc \in {"meta", "loop", "init"}    \* tree.run_sprout() called by itself after
+                THEN LET sm == IF s.pc = "meta" THEN s                          \* tree.run_metaepoch() (in which possibly nobody ran)
+                               ELSE LET s1 == InitAll(s, e.b) IN [DoLoopCheck(s1, FALSE) EXCEPT !.mc = s1.mc]
+                         a == Advance(sm, e.b, e.snap, NoDeme, {}) IN
+                     IF EnPostGsc(a.st) THEN R([a.st EXCEPT !.pc = "sprout"], a.errs) ELSE R(Force(a.st, e), a.errs \cup {"Desync"})
+                ELSE R(Force(s, e), {"Desync"})
       [] e.e = "end" ->     \* run() returned: the global condition must have been seen true at a metaepoch boundary
-           R(s, IF Manual(s) \/ s.pc = "done" \/ (s.pc = "loop" /\ s.gscSeen /\ s.pendingInit = <<>>) THEN {} ELSE {"C05_DoneImpliesGsc"})
+           \* (demes created by a last round that no consult followed have evaluated their initial populations)
+           R(IF s.pc \in {"init", "loop"} THEN InitAll(s, e.b) ELSE s,
+             IF Manual(s) \/ s.pc = "done" \/ (s.pc = "loop" /\ s.gscSeen /\ s.pendingInit = <<>>) THEN {} ELSE {"C05_DoneImpliesGsc"})
       \* consult from outside the protocol (e.g. between two children of a sprouting round): nothing is assumed about the
       \* position; the children of the round that the observed tree already holds have evaluated their initial populations
       [] e.e = "gsc" /\ e.by = "other" -> R(InitSeen(s, e.b, e.snap), {})
@@ -249,7 +259,8 @@ StateClauses(s) ==
    \cup (IF C07_Structure(s) /\ ~C07_IdLaw(s) THEN {"Info_IdLaw"} ELSE {})     \* the id scheme is mechanism, not property
    \cup (IF ~C08_ActiveWithinLimit(s) THEN {"C08_ActiveWithinLimit"} ELSE {})
    \cup (IF ~C05_WindDownAtMostOne(s) THEN {"C05_WindDownAtMostOne"} ELSE {})
-   \cup (IF ~C06_NewbornHasNotRun(s) THEN {"C06_NewbornHasNotRun"} ELSE {})
+   \* (stated in terms of the tree's metaepoch counter: not applicable while the caller keeps the counter frozen)
+   \cup (IF s.cfg.phases = 0 /\ ~C06_NewbornHasNotRun(s) THEN {"C06_NewbornHasNotRun"} ELSE {})
    \cup (IF ~C18_OffMeansNever(s) THEN {"C18_OffMeansNever"} ELSE {})
 
 \* Clauses evaluated when the metaepoch is complete (post-metaepoch consult)
@@ -309,7 +320,8 @@ Post(s, e) ==
            IF EnSprout(s) /\ \A i \in DOMAIN S : S[i][1] \in Ids(s) /\ ~IsLeafLevel(s, Lvl(s, S[i][1]))
            THEN LET s2 == DoSprout(s, S) IN
                 R(s2, (IF ~C08_RoundWithinFreeSlots(s, s2) THEN {"C08_RoundWithinFreeSlots"} ELSE {})
-                      \cup (IF s.gscSeen /\ S # <<>> THEN {"C05_NoSproutAfterGsc"} ELSE {}))
+                      \* (a caller invoking run_sprout() itself decides when to sprout: C05 speaks about run())
+                      \cup (IF s.gscSeen /\ S # <<>> /\ s.cfg.phases = 0 THEN {"C05_NoSproutAfterGsc"} ELSE {}))
            ELSE R([s EXCEPT !.pc = "loop"], {"C10_SeedsFromNonLeafDemes"})
       [] OTHER -> R(s, {})
 
@@ -556,7 +568,9 @@ Step ==
                    THEN [m3 EXCEPT !.offered = {e.gen[i][1] : i \in {j \in DOMAIN e.gen : Len(e.gen[j][2]) >= 1}}]
                    ELSE m3
            m4   == IF e.e = "gsc" /\ e.by = "run" /\ ~e.v THEN MemNewStep(m3b) ELSE m3b
-           pc   == IF e.e = "gsc" /\ e.by = "step" THEN PostClauses(s2) ELSE {}
+           pc   == IF e.e = "gsc" /\ e.by = "step" THEN PostClauses(s2)
+                   ELSE IF e.e = "sprout" /\ s2.cfg.phases = 1 /\ s2.pc = "sprout" THEN PostClauses([s2 EXCEPT !.pc = "meta"])
+                   ELSE {}
            sc   == IF e.e = "sprout" THEN SproutClauses(s2, m2, e) ELSE {}
            q    == Post(s2, e)
            idle == IF e.e = "gsc" /\ e.by = "step" /\ s2.cfg.idlecheck = 1 /\ sn.refused = 0 /\ IdleMetaepoch(q.st)
